@@ -6,11 +6,11 @@ cd "$(dirname "$0")/.."
 jobs=()
 for t in "$@"; do
   set -- $t; label=$1; pf=$2; chk=$3
-  touch .build/repo.lock
-  while [ -e .build/thorough.building ]; do sleep 3; done
+  touch .build/repo.lock; sleep 2
+  while [ -e .build/thorough.building ] || ls .build/building.* >/dev/null 2>&1; do sleep 3; done
   if ! git -C /repo apply --check "$pf" 2>/dev/null; then echo "== $label: patch does not apply"; rm -f .build/repo.lock; continue; fi
   git -C /repo apply "$pf"
-  VERIF_BUILD_TAG=seed-$label VERIF_EVIDENCE_DIR=/verif/.build/seed-evidence-$label VERIF_BUILD_ONLY=1 ./check $chk > .build/seed-$label-$chk.build.log 2>&1
+  VERIF_BUILD_TAG=seed-$label VERIF_EVIDENCE_DIR=/verif/.build/seed-evidence-$label VERIF_LOCK_HOLDER=1 VERIF_BUILD_ONLY=1 ./check $chk > .build/seed-$label-$chk.build.log 2>&1
   git -C /repo checkout -- .
   rm -f .build/repo.lock
   jobs+=("$label $chk")
